@@ -80,7 +80,14 @@ macro_rules! bodies {
             }
 
             pub fn any_position(m: VMarket<T, D>) -> VPosition<T, D> {
-                let mut p = VPosition::<T, D>::zero(m, kani::any(), kani::any());
+                any_position_side(m, None)
+            }
+            pub fn any_position_side(m: VMarket<T, D>, side: Option<bool>) -> VPosition<T, D> {
+                let is_long = match side {
+                    Some(b) => b,
+                    None => kani::any(),
+                };
+                let mut p = VPosition::<T, D>::zero(m, is_long, kani::any());
                 p.size_in_usd = kani::any();
                 p.size_in_tokens = kani::any();
                 p
@@ -241,8 +248,8 @@ macro_rules! bodies {
             /// Full close with a symbolic market: the pnl is the (capped) total pnl itself:
             /// total if the pool pnl is within the trader cap, else floor(cap * total / pool_pnl);
             /// pnl <= uncapped pnl = total.
-            pub fn full_close_capped_exact() {
-                let pos = any_position(pnl_market(true));
+            pub fn full_close_capped_exact(is_long: bool) {
+                let pos = any_position_side(pnl_market(true), Some(is_long));
                 let m = &pos.market;
                 let prices: Prices<T> = any_prices(false);
                 let (size, tokens) = (u(pos.size_in_usd), u(pos.size_in_tokens));
@@ -270,8 +277,7 @@ macro_rules! bodies {
                         } else {
                             assert!(is_floor_div(u(pnl.unsigned_abs() as T), (cap as R) * (total as R), pool_pnl as R) && *pnl >= 0, "C11: capped pnl is not floor(cap * total / pool_pnl)");
                         }
-                        kani::cover!(pool_pnl > cap && *pnl < *uncapped && *pnl > 0 && pos.is_long, "long: cap binds");
-                        kani::cover!(pool_pnl > cap && *pnl < *uncapped && *pnl > 0 && !pos.is_long, "short: cap binds");
+                        kani::cover!(pool_pnl > cap && *pnl < *uncapped && *pnl > 0, "cap binds");
                         kani::cover!(pool_pnl > 0 && pool_pnl <= cap && *pnl > 0, "cap does not bind");
                         kani::cover!(pool_pnl > cap && cap == 0 && *pnl == 0, "capped to zero");
                     }
@@ -342,7 +348,28 @@ macro_rules! bodies {
             /// Monotonicity in the index price: the uncapped pnl always; the credited pnl whenever the
             /// trader cap does not bind (then it equals the uncapped pnl).
             pub fn pnl_monotone(symbolic_pools: bool, full_close: bool) {
-                let pos = any_position(pnl_market(symbolic_pools));
+                pnl_monotone_side(symbolic_pools, full_close, None)
+            }
+            pub fn pnl_monotone_long(symbolic_pools: bool, full_close: bool) {
+                let (u1, u2, ok) = pnl_monotone_core(symbolic_pools, full_close, Some(true));
+                kani::cover!(ok && u1 < u2 && u1 > 0, "long, profit grows");
+                kani::cover!(ok && u1 < 0 && u2 > 0, "long, loss to profit");
+            }
+            pub fn pnl_monotone_short(symbolic_pools: bool, full_close: bool) {
+                let (u1, u2, ok) = pnl_monotone_core(symbolic_pools, full_close, Some(false));
+                kani::cover!(ok && u1 > u2 && u2 > 0, "short, profit shrinks");
+                kani::cover!(ok && u1 > 0 && u2 < 0, "short, profit to loss");
+            }
+            pub fn pnl_monotone_side(symbolic_pools: bool, full_close: bool, side: Option<bool>) {
+                let (u1, u2, ok) = pnl_monotone_core(symbolic_pools, full_close, side);
+                kani::cover!(ok && u1 < u2 && u1 > 0, "profit grows with the price");
+                kani::cover!(ok && u1 > u2 && u2 > 0, "profit shrinks with the price");
+                kani::cover!(ok && u1 < 0 && u2 > 0, "loss to profit");
+                kani::cover!(ok && u1 > 0 && u2 < 0, "profit to loss");
+            }
+            /// Returns (uncapped pnl at p1, uncapped pnl at p2, both evaluations succeeded).
+            pub fn pnl_monotone_core(symbolic_pools: bool, full_close: bool, side: Option<bool>) -> (S, S, bool) {
+                let pos = any_position_side(pnl_market(symbolic_pools), side);
                 let (p1, p2) = two_index_prices();
                 let size_delta: T = if full_close { pos.size_in_usd } else { kani::any() };
                 let r1 = pos.pnl_value(&p1, &size_delta);
@@ -367,12 +394,13 @@ macro_rules! bodies {
                     if *unc1 <= 0 {
                         assert!(*pnl1 == *unc1, "C11: a loss was changed by the trader pnl cap");
                     }
-                    kani::cover!(pos.is_long && *unc1 < *unc2 && *unc1 > 0, "long, profit grows");
-                    kani::cover!(pos.is_long && *unc1 < 0 && *unc2 > 0, "long, loss to profit");
-                    kani::cover!(!pos.is_long && *unc1 > *unc2 && *unc2 > 0, "short, profit shrinks");
-                    kani::cover!(!pos.is_long && *unc1 > 0 && *unc2 < 0, "short, profit to loss");
                 }
+                let out = match (&r1, &r2) {
+                    (Ok((_, u1, _)), Ok((_, u2, _))) => (*u1, *u2, true),
+                    _ => (0, 0, false),
+                };
                 core::mem::forget((r1, r2));
+                out
             }
 
             /// The strict clause (credited pnl monotone) inside the region where the trader cap binds.
@@ -474,12 +502,22 @@ fn c11_pnl_uncapped_exact_u8() {
 
 //@ prop=C11 tier=quick kind=hold
 //@ enc=PositionExt::pnl_value, Price::pick_price_for_pnl, BaseMarketExt::{pnl,pool_value_without_pnl_for_one_side,open_interest,open_interest_in_tokens}, MarketUtils::cap_pnl, MulDiv::checked_mul_div_with_signed_numerator
-//@ bound=width-reduced T=u8, DECIMALS=1: full close; every u8 position, price, liquidity / open-interest / open-interest-in-tokens pool and trader pnl factor
+//@ bound=width-reduced T=u8, DECIMALS=1: full close of a long position; every u8 position, price, liquidity / open-interest / open-interest-in-tokens pool and trader pnl factor
 //@ stubs=market/position environment = plain-struct VMarket/VPosition
 //@ timeout=1800
 #[kani::proof]
-fn c11_full_close_capped_exact_u8() {
-    w8::full_close_capped_exact();
+fn c11_full_close_capped_exact_long_u8() {
+    w8::full_close_capped_exact(true);
+}
+
+//@ prop=C11 tier=quick kind=hold
+//@ enc=PositionExt::pnl_value, Price::pick_price_for_pnl, BaseMarketExt::{pnl,pool_value_without_pnl_for_one_side,open_interest,open_interest_in_tokens}, MarketUtils::cap_pnl, MulDiv::checked_mul_div_with_signed_numerator
+//@ bound=width-reduced T=u8, DECIMALS=1: full close of a short position; every u8 position, price, liquidity / open-interest / open-interest-in-tokens pool and trader pnl factor
+//@ stubs=market/position environment = plain-struct VMarket/VPosition
+//@ timeout=1800
+#[kani::proof]
+fn c11_full_close_capped_exact_short_u8() {
+    w8::full_close_capped_exact(false);
 }
 
 //@ prop=C11 tier=thorough kind=hold
@@ -494,12 +532,22 @@ fn c11_pnl_le_uncapped_u8() {
 
 //@ prop=C11 tier=quick kind=hold
 //@ enc=PositionExt::pnl_value, Price::pick_price_for_pnl, BaseMarketExt::pnl, MarketUtils::cap_pnl
-//@ bound=width-reduced T=u8, DECIMALS=1: full close; every u8 position, liquidity / open-interest pool and trader pnl factor; two index price pairs p1 <= p2 (both ends ordered), other prices equal; both evaluations must succeed
+//@ bound=width-reduced T=u8, DECIMALS=1: full close of a long position; every u8 position, liquidity / open-interest pool and trader pnl factor; two index price pairs p1 <= p2 (both ends ordered), other prices equal; both evaluations must succeed
 //@ stubs=market/position environment = plain-struct VMarket/VPosition; by-design exclusion: the credited (capped) pnl is asserted monotone only where the trader cap does not bind, see c11_capped_pnl_monotone_u8
 //@ timeout=1800
 #[kani::proof]
-fn c11_pnl_monotone_full_close_u8() {
-    w8::pnl_monotone(true, true);
+fn c11_pnl_monotone_full_close_long_u8() {
+    w8::pnl_monotone_long(true, true);
+}
+
+//@ prop=C11 tier=quick kind=hold
+//@ enc=PositionExt::pnl_value, Price::pick_price_for_pnl, BaseMarketExt::pnl, MarketUtils::cap_pnl
+//@ bound=width-reduced T=u8, DECIMALS=1: full close of a short position; every u8 position, liquidity / open-interest pool and trader pnl factor; two index price pairs p1 <= p2 (both ends ordered), other prices equal; both evaluations must succeed
+//@ stubs=market/position environment = plain-struct VMarket/VPosition; by-design exclusion as in c11_pnl_monotone_full_close_long_u8
+//@ timeout=1800
+#[kani::proof]
+fn c11_pnl_monotone_full_close_short_u8() {
+    w8::pnl_monotone_short(true, true);
 }
 
 //@ prop=C11 tier=thorough kind=hold
